@@ -501,3 +501,17 @@ M("c09-broadcast-first-peer-only", "C09", "R09.8", MGR, "        for peer in sel
 M("c11-drop-first-byte", "C11", "P1", RP, "        self.receiver.receive(data)", "        self.receiver.receive(data[1:] if len(data) > 1023 else data)")
 M("c01-add-block-mutates-receiver", "C01", "R03.1", CS, "        validate_block_in_coinstate(block, self)\n\n        return", "        self.current_chain_hash = block.hash()\n        validate_block_in_coinstate(block, self)\n\n        return")
 M("c04-forks-skip-main", "C04", "R04.6", CS, "        return [(head, _find_lca_with_main(head)) for head in self.heads.values()]", "        return [(head, _find_lca_with_main(head)) for head in self.heads.values() if head.hash() != self.current_chain_hash]")
+
+# ----------------------------------------------------------------------------------------------- from independent sub-agents (first missed, then rules added)
+M("c16-upper-exclusive", "C16", "R16.5", CONS, "    if not (0 < value <= MAX_SASHIMI):", "    if value <= 0 or value >= MAX_SASHIMI:")
+M("c02-upper-exclusive", "C02", "R02.4", CONS, "    if not (0 < value <= MAX_SASHIMI):", "    if value <= 0 or value >= MAX_SASHIMI:")
+M("c08-shared-builder-dicts", "C08", "R08.7", BS, "        self.block_hash = block_hash\n        self.inputs: Dict[int, Input] = {}\n        self.outputs: Dict[int, Output] = {}\n",
+  "        self.block_hash = block_hash\n\n    inputs: Dict[int, Input] = {}\n    outputs: Dict[int, Output] = {}\n")
+M("c08-unique-index-on-spent-ref", "C08", "R08.6", BS, "            self.sql('CREATE INDEX tr_locator_block_hash ON transaction_locator(block_hash)')\n",
+  "            self.sql('CREATE INDEX tr_locator_block_hash ON transaction_locator(block_hash)')\n            self.sql('CREATE UNIQUE INDEX spent_once ON transaction_inputs(output_reference_hash, output_reference_index)')\n")
+M("c08-inputs-before-outputs", "C08", "R08.5", BS,
+  "        cur.executemany(\"insert or ignore into transaction_outputs values (?,?,?,?)\", transaction_outputs_param)\n        cur.executemany(\"insert or ignore into transaction_inputs values (?,?,?,?,?)\", transaction_inputs_param)\n",
+  "        cur.executemany(\"insert or ignore into transaction_inputs values (?,?,?,?,?)\", transaction_inputs_param)\n        cur.executemany(\"insert or ignore into transaction_outputs values (?,?,?,?)\", transaction_outputs_param)\n")
+M("c10-session-kept-or", "C10", "R10.6", MGR, "            if current_time < timeout_at and\n            not inventory_batch_handled(p)]", "            if current_time < timeout_at or\n            not inventory_batch_handled(p)]")
+M("c20-ipv6-host-stored", "C20", "R20.6", RP, "            ipv4_mapped = announced_peer.ip_address.ipv4_mapped\n            if ipv4_mapped is None:\n                continue  # IPv6? Ain't nobody got time for that! (Seriously though, the protocol supports it if needed)\n            host = ipv4_mapped.exploded\n",
+  "            ip_address = announced_peer.ip_address\n            host = (ip_address.ipv4_mapped or ip_address).exploded\n")
